@@ -16,6 +16,7 @@ Reference Go      runs the same scripts; its histories must be accepted by the s
 import json
 import os
 import random
+import shutil
 import struct
 import threading
 import time
@@ -183,8 +184,11 @@ UNIVERSES = {
 }
 
 
-def probe(keys):
-    return ["G %d" % k for k in keys] + ["H %d" % k for k in keys] + ["L", "R 0 0", "E"]
+def probe(keys, inner=False):
+    """observation appended where an enumerated script ends: every key, len, and (outside a loop) a complete loop"""
+    if inner:
+        return ["G %d" % k for k in keys] + ["L"]
+    return ["G %d" % k for k in keys] + ["H %d" % keys[0], "L", "R 0 0", "E"]
 
 
 def tokens_to_lines(toks, keys):
@@ -231,7 +235,7 @@ def tokens_to_lines(toks, keys):
     if inloop:
         if ny == 0:
             lines.append("@ 1")
-        lines += probe(keys)
+        lines += probe(keys, True)
         lines.append("E")
     lines += probe(keys)
     return lines
@@ -379,7 +383,7 @@ class Gen:
         self.emit("E")
 
 
-PROFILES = ("mixed", "grow", "churn", "nan", "clearloop")
+PROFILES = ("mixed", "grow", "churn", "nan", "clearloop")     # + "big" (thorough only)
 
 
 def gen_random(rng, profile, kt, vt, length, tag):
@@ -471,6 +475,37 @@ def gen_random(rng, profile, kt, vt, length, tag):
                 g.emit(r.choice(["G %d", "D %d", "H %d"]) % r.choice(nanidx))
             else:
                 g.op((30, 15, 15, 5, 0.7, 12, 0), 0)
+    elif profile == "big":
+        # thousands of live entries (B up to 11): `length` fresh keys with lookups and short loops on the way up, then some
+        # deletions.  (TLC re-fingerprints the whole model map in every state, so the live size is what bounds this.)
+        g = Gen(r, kt, vt, 1 << 30, nan_budget=0)
+        g.emit("M %d" % r.choice([0, 0, 5000]))
+        g.nil = False
+        for n in range(length):
+            g.ins(1.0)
+            x = r.random()
+            if x < 0.08:
+                g.get()
+            elif x < 0.10:
+                g.emit("R %d 0" % r.randint(1, 3))
+                if r.random() < 0.5:
+                    g.emit("@ 1")
+                    for _ in range(r.choice([1, 3, 9])):
+                        g.ins(1.0)
+                g.emit("E")
+            elif x < 0.105:
+                g.emit("L")
+        for _ in range(length // 10):
+            if r.random() < 0.5:
+                g.emit("P")
+            else:
+                g.dele(0.0)
+        g.emit("L")
+        g.emit("R 100 0")
+        g.emit("E")
+        sc = Script(kt, vt, g.lines, "rnd:%s:%s:%s:%s" % (profile, KT[kt], VT[vt], tag), "rnd:" + profile)
+        sc.maxkey = 0
+        return sc
     else:  # clearloop: clear / delete-everything / refill inside running loops
         g = Gen(r, kt, vt, r.choice([6, 20, 60, 200]), nan_budget=3)
         g.make()
@@ -676,24 +711,40 @@ def tlc_modelcheck(chk, rd, universe, maxops):
     return res, wit, blocked
 
 
-def validate(chk, rd, traces, label, module="FiniteMapTrace", cfg="trace.cfg", heap="-Xmx12g"):
-    """traces: list of {"id", "ev"}; returns set of accepted ids"""
+def validate(chk, rd, traces, label, module="FiniteMapTrace", cfg="trace.cfg", heap="-Xmx12g", add=True):
+    """traces: list of {"id", "ev"}; returns (set of accepted ids, [TLC results]).  Large sets are validated in several
+    TLC runs (each history is independent)."""
     if not traces:
-        return set(), None
-    os.makedirs(os.path.join(rd, "tr-" + label), exist_ok=True)
-    tpath = os.path.join(rd, "tr-" + label, "traces.ndjson")
-    with open(tpath, "w") as f:
-        for tr in traces:
-            f.write(json.dumps(tr, separators=(",", ":")) + "\n")
-    res = C.tlc(SPEC, module, cfg, rd, timeout=3000, copy_extra=[tpath], parse_json=False,
-                java_opts="-Xss256m -XX:ParallelGCThreads=4 " + heap)
-    if not res.ok:
-        raise C.Undecided("%s stopped (%s): %s" % (module, label, res.violation))
+        return set(), []
+    shards, cur, n = [], [], 0
+    for tr in sorted(traces, key=lambda t: -len(t["ev"])):      # long histories first: they bound the wall time
+        cur.append(tr)
+        n += len(tr["ev"])
+        if n >= 500000:
+            shards.append(cur)
+            cur, n = [], 0
+    if cur:
+        shards.append(cur)
     acc = set()
-    for rec in C.tlc_printed_iter(res):
-        if "acc" in rec:
-            acc.add(rec["acc"])
-    return acc, res
+    ress = []
+    for i, sh in enumerate(shards):
+        d = os.path.join(rd, "tr-%s-%d" % (label, i))
+        os.makedirs(d, exist_ok=True)
+        tpath = os.path.join(d, "traces.ndjson")
+        with open(tpath, "w") as f:
+            for tr in sh:
+                f.write(json.dumps(tr, separators=(",", ":")) + "\n")
+        res = C.tlc(SPEC, module, cfg, rd, timeout=5400, copy_extra=[tpath], parse_json=False,
+                    java_opts="-Xss256m -XX:ParallelGCThreads=4 " + heap)
+        if not res.ok:
+            raise C.Undecided("%s stopped (%s): %s" % (module, label, res.violation))
+        for rec in C.tlc_printed_iter(res):
+            if "acc" in rec:
+                acc.add(rec["acc"])
+        ress.append(res)
+        shutil.rmtree(res.wd, ignore_errors=True)
+        os.remove(tpath)
+    return acc, ress
 
 
 def progress(chk, rd, traces):
@@ -723,11 +774,12 @@ def build_plan(rng, thorough):
                     if prof == "nan" and kt not in (2, 3):
                         continue
                     for rep in range(3):
-                        plan.append((prof, kt, vt, rng.choice([60, 150, 400, 900, 1500, 3000])))
-        for kt in range(6):                      # tens of thousands of keys: B up to 12
-            plan.append(("grow", kt, 1 if kt != 1 else 2, 40000 if kt in (0, 3) else 12000))
-        plan.append(("churn", 0, 1, 12000))
-        plan.append(("churn", 1, 0, 12000))
+                        ln = rng.choice([60, 150, 400, 900, 1500, 3000])
+                        if prof == "churn":
+                            ln = rng.choice([1500, 3000, 6000])
+                        plan.append((prof, kt, vt, ln))
+        plan += [("big", 0, 1, 9000), ("big", 1, 0, 7000), ("big", 3, 2, 7000), ("big", 2, 1, 4000), ("big", 4, 2, 4000),
+                 ("big", 5, 0, 4000)]
     else:
         plan = []
         combos = [(kt, vt) for kt in range(6) for vt in range(3)]
@@ -885,47 +937,52 @@ def check(chk):
     chk.cov["model_witnesses"] = dict(witness, loop_must_continue_states=blocked)
     C.log("TLC enumeration done at %.1fs: %s" % (time.time() - t0, {u: len(s) for u, s in exh.items()}))
 
-    # ---- scripts: exhaustive part
-    scripts = []
+    # ---- scripts: exhaustive part (selection by name; Script objects are built batch by batch)
     n_exh_total = sum(len(s) for s in exh.values())
     exh_cap = None if thorough else 500
+    selections = []          # (universe, key type, key numbers, [script names])
     for u, toks in exh.items():
         names = sorted(toks)
         for (kt, keys) in UNIVERSES[u]:
             sel = names
+            r2 = random.Random(sd * 31 + kt)
+            if exh_cap is None:
+                # thorough: the +0/-0/NaN and the mixed-dynamic-type universes completely; seeded samples of the others
+                cap = {"f64": None, "any": None, "anyf": 40000}.get(u, 40000 if kt == 0 else 10000)
+                if cap is not None:
+                    sel = sorted(r2.sample(names, min(len(names), cap)))
             if exh_cap is not None:
                 # quick: every script of <= 2 tokens and a seeded sample of the longer ones
                 short = [n for n in names if n.count(".") <= (2 if n.startswith("F") else 1)]
-                rest = [n for n in names if n not in set(short)]
-                r2 = random.Random(sd * 31 + kt)
+                sshort = set(short)
+                rest = [n for n in names if n not in sshort]
                 r2.shuffle(rest)
-                per = max(0, exh_cap - len(short))
-                sel = short + rest[:per]
-            for i, n in enumerate(sel):
-                vt = 1
-                if thorough:
-                    vt = (1, 1, 2, 0)[i % 4]
-                else:
-                    vt = (1, 1, 1, 2, 1, 0)[i % 6]
-                sc = Script(kt, vt, tokens_to_lines(toks[n], keys), "ex:%s:%s:%s:%s" % (u, KT[kt], VT[vt], n), "ex:" + u)
-                sc.maxkey = max(keys)
-                scripts.append(sc)
-    n_exh = len(scripts)
+                sel = short + rest[:max(0, exh_cap - len(short))]
+            selections.append((u, kt, keys, sel))
+    n_exh = sum(len(s[3]) for s in selections)
+
+    def ex_scripts(u, kt, keys, names):
+        out = []
+        for i, n in enumerate(names):
+            vt = (1, 1, 2, 0)[i % 4] if thorough else (1, 1, 1, 2, 1, 0)[i % 6]
+            sc = Script(kt, vt, tokens_to_lines(exh[u][n], keys), "ex:%s:%s:%s:%s" % (u, KT[kt], VT[vt], n), "ex:" + u)
+            sc.maxkey = max(keys)
+            out.append(sc)
+        return out
 
     # ---- scripts: seeded random histories
     plan = build_plan(rng, thorough)
-    for i, (prof, kt, vt, ln) in enumerate(plan):
-        scripts.append(gen_random(random.Random(sd * 7919 + i), prof, kt, vt, ln, "seed%d.%d.%d" % (sd, i, ln)))
-    for i, sc in enumerate(scripts):
-        sc.id = i + 1
-    byid = {sc.id: sc for sc in scripts}
-    C.log("scripts: %d exhaustive (of %d enumerated x key types), %d random, %d ops" % (
-        n_exh, n_exh_total, len(scripts) - n_exh, sum(len(s.lines) for s in scripts)))
+    rnd_scripts = [gen_random(random.Random(sd * 7919 + i), prof, kt, vt, ln, "seed%d.%d.%d" % (sd, i, ln))
+                   for i, (prof, kt, vt, ln) in enumerate(plan)]
+    C.log("scripts: %d exhaustive (of %d enumerated), %d random with %d ops" % (
+        n_exh, n_exh_total, len(rnd_scripts), sum(len(s.lines) for s in rnd_scripts)))
 
-    # ---- key universe self-test of the harness (interpreter's keys = this driver's keys), on the reference build
+    # ---- key universe self-test of the harness (interpreter's keys = this driver's keys)
     maxk = {}
-    for sc in scripts:
+    for sc in rnd_scripts:
         maxk[sc.kt] = max(maxk.get(sc.kt, 0), min(sc.maxkey, 3000))
+    for (u, kt, keys, _) in selections:
+        maxk[kt] = max(maxk.get(kt, 0), max(keys))
     inp = "Q 0\n" + "".join("U %d %d\n" % (kt, n + 1) for kt, n in sorted(maxk.items()))
 
     def universe_ok(exe, what):
@@ -951,67 +1008,183 @@ def check(chk):
         if not ok:
             raise C.Undecided("llgo build of the interpreter failed (%s %s):\n%s" % (opt, tags, msg[-3000:]))
     C.log("builds done at %.1fs" % (time.time() - t0))
-
-    # ---- run: llgo-compiled interpreter(s) and the reference
-    runs = []       # (config label, scripts subset)
-    runs.append(("O0", scripts))
-    if thorough:
-        small = [s for s in scripts if len(s.lines) <= 1600]
-        r3 = random.Random(sd + 5)
-        ex_s = [s for s in small if s.kind.startswith("ex:")]
-        rn_s = [s for s in small if not s.kind.startswith("ex:")]
-        runs.append(("O2", r3.sample(ex_s, min(len(ex_s), 30000)) + rn_s))
-        runs.append(("O0-nogc", r3.sample(ex_s, min(len(ex_s), 30000)) + [s for s in rn_s if len(s.lines) <= 1000]))
-    traces = []
-    src = {}        # trace id -> (config, script, full events)
-    crashes_all = []
-    universe_checked = False
-    for label, subset in runs:
+    labels = ["O0"] + (["O2", "O0-nogc"] if thorough else [])
+    for label in labels:
         opt, _, tags = label.partition("-")
-        exe = builds[(opt, tags)][2]
-        if not universe_checked or thorough:
-            bad = universe_ok(exe, "llgo build " + label)
-            universe_checked = True
-            if bad:
-                chk.reject("universe:" + label, "llgo-compiled interpreter constructs a different key than the reference: " + bad,
-                           {"config": label, "detail": bad})
-        logs, crashes = run_scripts(exe, subset, True, rd, "llgo " + label, 900 if thorough else 120)
-        for sid, st, tail in crashes:
-            sc = byid[sid]
-            crashes_all.append(sid)
-            # run the history again on its own, flushing every log line, to see the call it dies in
-            st2, out2, _ = C.run_exe(exe, stdin=("Q 1 1\n" + sc.text()).encode(), timeout=120, merge=True)
-            tail = "alone: status %s, last lines: %s" % (st2, out2.split("\n")[-6:]) if st2 != 0 else tail
-            C.log("crash: %s %s status %s: %s" % (label, sc.key, st, tail[-400:]))
-            chk.reject("crash:" + sc.key, "llgo-compiled (%s) map program died (status %s) while running history %s" % (label, st, sc.key),
-                       {"config": label, "script": sc.lines, "kt": KT[sc.kt], "vt": VT[sc.vt], "status": str(st), "tail": tail})
-        for sc in subset:
-            if sc.id in logs:
-                tid = len(traces) + 1
-                ev = to_events(sc, logs[sc.id])
-                traces.append({"id": tid, "ev": strip_b(ev)})
-                src[tid] = (label, sc, ev)
-    n_impl = len(traces)
-    C.log("llgo runs done at %.1fs: %d histories, %d events" % (time.time() - t0, n_impl, sum(len(t["ev"]) for t in traces)))
+        bad = universe_ok(builds[(opt, tags)][2], "llgo build " + label)
+        if bad:
+            chk.reject("universe:" + label, "llgo-compiled interpreter constructs a different key than the reference: " + bad,
+                       {"config": label, "detail": bad})
 
-    # reference: every random history and a sample of the exhaustive ones (self-validation of the specification)
-    r4 = random.Random(sd + 9)
-    ex_all = [s for s in scripts if s.kind.startswith("ex:")]
-    ref_subset = r4.sample(ex_all, min(len(ex_all), 20000 if thorough else 500)) + \
-        [s for s in scripts if not s.kind.startswith("ex:") and len(s.lines) <= (5000 if thorough else 700)]
-    rlogs, rcrashes = run_scripts(ref, ref_subset, False, rd, "reference", 900 if thorough else 120)
-    if rcrashes:
-        raise C.Undecided("reference interpreter died on script %s" % byid[rcrashes[0][0]].key)
-    ref_ids = set()
-    for sc in ref_subset:
-        tid = len(traces) + 1
-        ev = to_events(sc, rlogs[sc.id])
-        traces.append({"id": tid, "ev": strip_b(ev)})
-        src[tid] = ("reference", sc, ev)
-        ref_ids.add(tid)
+    # ---- batches: run (llgo configurations + reference), validate, account
+    tot = {"n_impl": 0, "evs": 0, "ref": 0, "rejected": 0, "crashes": 0, "neg": set(), "distinct": set(), "cover": None,
+           "drift_items": [], "batches": 0}
+    rsel = random.Random(sd + 5)
 
-    # negative controls: corrupted copies of accepted-looking llgo histories
+    def run_batch(batch, first):
+        for i, sc in enumerate(batch):
+            sc.id = i + 1
+        byid = {sc.id: sc for sc in batch}
+        ex_b = [s for s in batch if s.kind.startswith("ex:")]
+        rn_b = [s for s in batch if not s.kind.startswith("ex:")]
+        runs = [("O0", batch)]
+        if thorough:
+            runs.append(("O2", rsel.sample(ex_b, len(ex_b) // 6) + [s for s in rn_b if len(s.lines) <= 1600]))
+            runs.append(("O0-nogc", rsel.sample(ex_b, len(ex_b) // 6) + [s for s in rn_b if len(s.lines) <= 1000]))
+        traces = []
+        src = {}        # trace id -> (config, script, full events)
+        for label, subset in runs:
+            if not subset:
+                continue
+            opt, _, tags = label.partition("-")
+            exe = builds[(opt, tags)][2]
+            logs, crashes = run_scripts(exe, subset, True, rd, "llgo " + label, 1800 if thorough else 240)
+            for sid, st, tail in crashes:
+                sc = byid[sid]
+                tot["crashes"] += 1
+                # run the history again on its own, flushing every log line, to see the call it dies in
+                st2, out2, _ = C.run_exe(exe, stdin=("Q 1 1\n" + sc.text()).encode(), timeout=120, merge=True)
+                tail = "alone: status %s, last lines: %s" % (st2, out2.split("\n")[-6:]) if st2 != 0 else tail
+                C.log("crash: %s %s status %s: %s" % (label, sc.key, st, tail[-400:]))
+                chk.reject("crash:" + sc.key, "llgo-compiled (%s) map program died (status %s) while running history %s" % (label, st, sc.key),
+                           {"config": label, "script": sc.lines[:4000], "kt": KT[sc.kt], "vt": VT[sc.vt], "status": str(st), "tail": tail})
+            for sc in subset:
+                if sc.id in logs:
+                    tid = len(traces) + 1
+                    ev = to_events(sc, logs[sc.id])
+                    traces.append({"id": tid, "ev": strip_b(ev)})
+                    src[tid] = (label, sc, ev)
+        n_impl = len(traces)
+
+        # reference: the random histories and a sample of the exhaustive ones (self-validation of the specification)
+        nref = min(len(ex_b), max(1, len(ex_b) // 6) if thorough else 500)
+        ref_subset = rsel.sample(ex_b, nref) + [s for s in rn_b if len(s.lines) <= (5000 if thorough else 700)]
+        rlogs, rcrashes = run_scripts(ref, ref_subset, False, rd, "reference", 1800 if thorough else 240)
+        if rcrashes:
+            raise C.Undecided("reference interpreter died on script %s" % byid[rcrashes[0][0]].key)
+        ref_ids = set()
+        for sc in ref_subset:
+            tid = len(traces) + 1
+            traces.append({"id": tid, "ev": strip_b(to_events(sc, rlogs[sc.id]))})
+            src[tid] = ("reference", sc, None)
+            ref_ids.add(tid)
+
+        neg = negative_controls(traces, n_impl) if first else {}
+        accepted, ressT = validate(chk, rd, traces, "b%d" % tot["batches"], cfg="trace_inv.cfg" if thorough else "trace.cfg")
+        for r in ressT:
+            chk.add_tlc(r, "FiniteMapTrace batch %d" % tot["batches"])
+        C.log("batch %d validated at %.1fs: %d llgo histories, %d reference, TLC %.1fs" % (
+            tot["batches"], time.time() - t0, n_impl, len(ref_ids), sum(r.wall for r in ressT)))
+        for nid, kind in neg.items():
+            if nid in accepted:
+                raise C.Undecided("negative control (%s) accepted by FiniteMapTrace: the trace spec is not binding" % kind)
+        tot["neg"] |= set(neg.values())
+        bad_ref = [tid for tid in ref_ids if tid not in accepted]
+        if bad_ref:
+            sc = src[bad_ref[0]][1]
+            prog = progress(chk, rd, [traces[bad_ref[0] - 1]])
+            raise C.Undecided("FiniteMap rejects a history of the REFERENCE Go toolchain (%d such; first: %s, event %s): the "
+                              "specification is wrong" % (len(bad_ref), sc.key, prog))
+        rejected = [tr for tr in traces[:n_impl] if tr["id"] not in accepted]
+        if rejected:
+            prog = progress(chk, rd, rejected[:200])
+            seen = set()
+            for tr in rejected:
+                label, sc, ev = src[tr["id"]]
+                at = prog.get(tr["id"], 0)
+                key = "history:" + sc.key
+                if key in seen:
+                    continue
+                seen.add(key)
+                bad_ev = tr["ev"][at] if at < len(tr["ev"]) else None
+                C.log("rejected: %s %s event %d %s" % (label, sc.key, at + 1, json.dumps(bad_ev)))
+                chk.reject(key, "history recorded from the llgo-compiled (%s) map[%s]%s is not a behaviour of FiniteMap: event %d %s "
+                                "has no matching action after %s" % (label, KT[sc.kt], VT[sc.vt], at + 1, json.dumps(bad_ev),
+                                                                     json.dumps(tr["ev"][max(0, at - 3):at])),
+                           {"config": label, "kt": KT[sc.kt], "vt": VT[sc.vt], "script": sc.lines[:4000],
+                            "first_rejected_event_index": at, "first_rejected_event": bad_ev,
+                            "events_before": tr["ev"][max(0, at - 12):at], "n_events": len(tr["ev"])})
+        # accounting
+        tot["n_impl"] += n_impl
+        tot["ref"] += len(ref_ids)
+        tot["rejected"] += len(rejected)
+        tot["evs"] += sum(len(t["ev"]) for t in traces[:n_impl])
+        for t in traces[:n_impl]:
+            tot["distinct"].add(hash(json.dumps(t["ev"], sort_keys=True)))
+        cov = reached([src[tid][2] for tid in range(1, n_impl + 1)])
+        if tot["cover"] is None:
+            tot["cover"] = cov
+        else:
+            for k, v in cov.items():
+                tot["cover"][k] = max(tot["cover"][k], v) if k.startswith("max_") else tot["cover"][k] + v
+        for tid in range(1, n_impl + 1):
+            if not src[tid][1].kind.startswith("ex:"):
+                tot["drift_items"].append((len(tot["drift_items"]) + 1, src[tid][2]))
+        if first:
+            small = [t for t in traces[:n_impl] if 6 < len(t["ev"]) < 30 and any(e["o"] == "y" for e in t["ev"])]
+            for t in small[:2]:
+                chk.sample({"validated_history": t["ev"], "script": src[t["id"]][1].key})
+        tot["batches"] += 1
+
+    if thorough:
+        first = True
+        for (u, kt, keys, names) in selections:
+            for lo in range(0, len(names), 40000):
+                run_batch(ex_scripts(u, kt, keys, names[lo:lo + 40000]), first)
+                first = False
+        run_batch(rnd_scripts, False)
+    else:
+        batch = []
+        for (u, kt, keys, names) in selections:
+            batch += ex_scripts(u, kt, keys, names)
+        run_batch(batch + rnd_scripts, True)
+    if len(tot["neg"]) < 7:
+        raise C.Undecided("could not construct all negative controls: %s" % sorted(tot["neg"]))
+
+    # ---- layer B: scalar growth model, drift only (the exhaustive 3-key histories never grow)
+    drift = growth_drift(chk, rd, tot["drift_items"])
+    if thorough:
+        resG = C.tlc(SPEC, "MapGrowthMC", "growthmc.cfg", rd, workers=4, timeout=1500, parse_json=False)
+        chk.add_tlc(resG, "MapGrowthMC (layer B against A, 10 keys)")
+        drift["MapGrowthMC_holds"] = bool(resG.ok)
+
+    # ---- evidence: what the histories reached (from the logged header scalars)
+    cover = tot["cover"]
+    must = ["doubling_growths", "same_size_growths", "mutations_inside_range_loops", "loops_started_while_growing",
+            "growths_started_inside_a_loop", "yields_while_growing", "nan_entries_produced_by_loops", "unhashable_panics",
+            "nil_map_write_panics"]
+    if any(cover[k] == 0 for k in must):
+        raise C.Undecided("generated histories did not reach: %s" % [k for k in must if cover[k] == 0])
+    chk.cov["traces_validated_against_impl"] = tot["n_impl"]
+    chk.cov["evaluations"] = tot["evs"]
+    chk.cov["distinct_nontrivial"] = len(tot["distinct"])
+    chk.cov["histories"] = {"exhaustive_scripts_enumerated": n_exh_total, "exhaustive_replayed": n_exh,
+                            "random": len(rnd_scripts), "reference_histories_validated": tot["ref"],
+                            "negative_controls": sorted(tot["neg"]), "rejected": tot["rejected"], "crashes": tot["crashes"]}
+    chk.cov["reached"] = cover
+    chk.cov["conformance_real_vs_MapGrowth"] = drift
+    chk.cov["configs"] = labels
+    chk.cov["rule"] = ("history = one script run by the llgo-compiled interpreter on one map[K]V (6 key types x 3 value sizes): every "
+                       "insert/delete/lookup/len/clear/make/range step with its observed result, mutations inside range bodies; "
+                       "evaluations = logged map operations judged by FiniteMapTrace; distinct = distinct recorded histories "
+                       "(event sequences incl. iteration order); exhaustive part = every script of <= %d tokens over 3 keys "
+                       "enumerated by TLC from FiniteMapMC for 4 key universes (plain, +0/-0/NaN, mixed dynamic types with an "
+                       "unhashable one, interface-wrapped floats), each followed by a probe of every key, len and a complete loop"
+                       % gen_n)
+    chk.assumptions += [
+        "the interpreter's key construction (numbers -> keys) agrees with the driver's table: checked on every run against both builds",
+        "a value read back is reduced to one int by the interpreter (all 17 words of the 136-byte value are compared first)",
+        "a range loop is cut by the interpreter after len(m)+len(script)+16 produced entries (more than any correct loop can produce); the duplicates are in the log",
+        "llgo configurations: O0 default GC in quick; thorough adds the O2* pass pipeline of vlib.common and -tags nogc",
+        "panic kinds/messages are not compared, only that the call panicked",
+        "live map sizes stay below ~10^4 entries (B <= 11): TLC re-fingerprints the whole model map in every state",
+    ]
+
+
+def negative_controls(traces, n_impl):
+    """append corrupted copies of recorded llgo histories; returns {trace id: kind}"""
     neg = {}
+
     def add_neg(kind, tr, mut):
         bad = json.loads(json.dumps(tr))
         if mut(bad["ev"]):
@@ -1076,84 +1249,7 @@ def check(chk):
                 add_neg(kind, tr, mut)
                 if len(neg) > before:
                     break
-    if len(set(neg.values())) < 7:
-        raise C.Undecided("could not construct all negative controls: %s" % sorted(set(neg.values())))
-
-    accepted, resT = validate(chk, rd, traces, "all")
-    chk.add_tlc(resT, "FiniteMapTrace")
-    C.log("trace validation done at %.1fs (%d histories, TLC %.1fs)" % (time.time() - t0, len(traces), resT.wall))
-    for nid, kind in neg.items():
-        if nid in accepted:
-            raise C.Undecided("negative control (%s) accepted by FiniteMapTrace: the trace spec is not binding" % kind)
-    bad_ref = [tid for tid in ref_ids if tid not in accepted]
-    if bad_ref:
-        sc = src[bad_ref[0]][1]
-        prog = progress(chk, rd, [traces[bad_ref[0] - 1]])
-        raise C.Undecided("FiniteMap rejects a history of the REFERENCE Go toolchain (%d such; first: %s, event %s): the "
-                          "specification is wrong" % (len(bad_ref), sc.key, prog))
-    rejected = [tr for tr in traces[:n_impl] if tr["id"] not in accepted]
-    if rejected:
-        prog = progress(chk, rd, rejected[:200])
-        seen = set()
-        for tr in rejected:
-            label, sc, ev = src[tr["id"]]
-            at = prog.get(tr["id"], 0)
-            key = "history:" + sc.key
-            if key in seen:
-                continue
-            seen.add(key)
-            bad_ev = tr["ev"][at] if at < len(tr["ev"]) else None
-            C.log("rejected: %s %s event %d %s" % (label, sc.key, at + 1, json.dumps(bad_ev)))
-            chk.reject(key, "history recorded from the llgo-compiled (%s) map[%s]%s is not a behaviour of FiniteMap: event %d %s "
-                            "has no matching action after %s" % (label, KT[sc.kt], VT[sc.vt], at + 1, json.dumps(bad_ev),
-                                                                 json.dumps(tr["ev"][max(0, at - 3):at])),
-                       {"config": label, "kt": KT[sc.kt], "vt": VT[sc.vt], "script": sc.lines if len(sc.lines) < 4000 else sc.lines[:4000],
-                        "first_rejected_event_index": at, "first_rejected_event": bad_ev,
-                        "events_before": tr["ev"][max(0, at - 12):at], "n_events": len(tr["ev"])})
-
-    # ---- layer B: scalar growth model, drift only (the exhaustive 3-key histories never grow)
-    drift = growth_drift(chk, rd, [(tid, src[tid][2]) for tid in range(1, n_impl + 1)
-                                   if tid in src and not src[tid][1].kind.startswith("ex:")])
-    if thorough:
-        resG = C.tlc(SPEC, "MapGrowthMC", "growthmc.cfg", rd, workers=4, timeout=1500, parse_json=False)
-        chk.add_tlc(resG, "MapGrowthMC (layer B against A, 10 keys)")
-        drift["MapGrowthMC_holds"] = bool(resG.ok)
-
-    # ---- evidence: what the histories reached (from the logged header scalars)
-    evs = sum(len(t["ev"]) for t in traces[:n_impl])
-    cover = reached([src[tid][2] for tid in range(1, n_impl + 1)])
-    must = ["doubling_growths", "same_size_growths", "mutations_inside_range_loops", "loops_started_while_growing",
-            "growths_started_inside_a_loop", "yields_while_growing", "nan_entries_produced_by_loops", "unhashable_panics",
-            "nil_map_write_panics"]
-    if any(cover[k] == 0 for k in must):
-        raise C.Undecided("generated histories did not reach: %s" % [k for k in must if cover[k] == 0])
-    distinct = len(set(json.dumps(t["ev"], sort_keys=True) for t in traces[:n_impl]))
-    chk.cov["traces_validated_against_impl"] = n_impl
-    chk.cov["evaluations"] = evs
-    chk.cov["distinct_nontrivial"] = distinct
-    chk.cov["histories"] = {"exhaustive_scripts_enumerated": n_exh_total, "exhaustive_replayed": n_exh,
-                            "random": len(scripts) - n_exh, "reference_histories_validated": len(ref_ids),
-                            "negative_controls": sorted(set(neg.values())), "rejected": len(rejected), "crashes": len(crashes_all)}
-    chk.cov["reached"] = cover
-    chk.cov["conformance_real_vs_MapGrowth"] = drift
-    chk.cov["configs"] = [r[0] for r in runs]
-    chk.cov["rule"] = ("history = one script run by the llgo-compiled interpreter on one map[K]V (6 key types x 3 value sizes): every "
-                       "insert/delete/lookup/len/clear/make/range step with its observed result, mutations inside range bodies; "
-                       "evaluations = logged map operations judged by FiniteMapTrace; distinct = distinct recorded histories "
-                       "(event sequences incl. iteration order); exhaustive part = every script of <= %d tokens over 3 keys "
-                       "enumerated by TLC from FiniteMapMC for 4 key universes (plain, +0/-0/NaN, mixed dynamic types with an "
-                       "unhashable one, interface-wrapped floats)" % gen_n)
-    if traces:
-        small = [t for t in traces[:n_impl] if 6 < len(t["ev"]) < 30 and any(e["o"] == "y" for e in t["ev"])]
-        for t in small[:2]:
-            chk.sample({"validated_history": t["ev"], "script": src[t["id"]][1].key})
-    chk.assumptions += [
-        "the interpreter's key construction (numbers -> keys) agrees with the driver's table: checked on every run against both builds",
-        "a value read back is reduced to one int by the interpreter (all 17 words of the 136-byte value are compared first)",
-        "a range loop is cut by the interpreter after len(m)+len(script)+16 produced entries (more than any correct loop can produce); the duplicates are in the log",
-        "llgo configurations: O0 default GC in quick; thorough adds the O2* pass pipeline of vlib.common and -tags nogc",
-        "panic kinds/messages are not compared, only that the call panicked",
-    ]
+    return neg
 
 
 # --------------------------------------------------------------------------- layer B
@@ -1163,8 +1259,6 @@ def growth_drift(chk, rd, items):
     growth model.  Reported as drift; never a verdict."""
     traces = []
     for tid, ev in items:
-        if len(ev) > 4000:
-            continue
         steps = []
         for e in ev:
             if e["c"] < 0:
@@ -1176,10 +1270,11 @@ def growth_drift(chk, rd, items):
     if not traces or not os.path.exists(os.path.join(SPEC, "MapGrowth.tla")):
         return {"histories": 0}
     try:
-        acc, res = validate(chk, rd, traces, "growth", module="MapGrowth", cfg="growth.cfg")
+        acc, ress = validate(chk, rd, traces, "growth", module="MapGrowth", cfg="growth.cfg")
     except C.Undecided as e:
         return {"histories": len(traces), "error": str(e)[:300]}
-    chk.add_tlc(res, "MapGrowth (layer B, drift only)")
+    for r in ress:
+        chk.add_tlc(r, "MapGrowth (layer B, drift only)")
     return {"histories": len(traces), "conforming": len(acc), "rate": round(len(acc) / max(1, len(traces)), 4)}
 
 
